@@ -68,6 +68,15 @@ def judge_valnone(frame: bytes, ck: bytes, mode):
         got = UBXReader.parse(x, msgmode=mode, validate=0)
     except Exception as e:  # noqa: BLE001
         return "viol", [(f"valnone_refuses_corrupt_checksum|{type(e).__name__}", f"x={x.hex()[:64]}")]
+    # having been parsed leniently must not make the corrupted frame acceptable afterwards
+    if not ref.wellformed(x):
+        try:
+            UBXReader.parse(x, msgmode=mode, validate=1)
+            return "viol", [("corrupt_frame_accepted_by_VALCKSUM_after_VALNONE_parse", f"x={x.hex()[:64]}")]
+        except ube.UBXParseError:
+            pass
+        except Exception as e:  # noqa: BLE001
+            return "viol", [(f"malformed_frame_not_UBXParseError|after_valnone|{type(e).__name__}", f"x={x.hex()[:64]}")]
     a, b = attrs(good), attrs(got)
     if good.identity != got.identity or repr(a) != repr(b) or list(a) != list(b):
         return "viol", [("valnone_parses_differently", f"x={x.hex()[:64]}")]
